@@ -12,7 +12,7 @@ import (
 func init() {
 	Register(&Property{
 		ID:    "C43",
-		Floor: 60,
+		Floor: 120,
 		Clauses: "webdav memLS, structural necessary conditions: every exported method and the release closure hold m.mu (balanced, deferred unlock) around every helper call, and the helpers / the byName, byToken maps / held, token, gen, refCount, expiry fields are touched only from those methods; " +
 			"collectExpiredNodes(now) precedes every lookup / canCreate / byToken read in Confirm, Create, Refresh, Unlock and removes byExpiry[0] exactly when !now.Before(expiry); " +
 			"Create returns ErrLocked unless canCreate on the slashCleaned root, and only then calls create, takes a token from nextToken and registers it in byToken; canCreate's callback returns false exactly under its three conflict conjunctions and walkToRoot stops at the first false and returns true only at \"/\"; " +
@@ -39,7 +39,7 @@ func c43(c *Ctx) {
 	}
 	c.HeldAt(M+"Confirm", Calls(collect, lookup, hold), "$r.mu", []string{lock}, []string{unlock})
 	c.HeldAt(M+"Confirm$1", Calls(unhold), "^m.mu", []string{lock}, []string{unlock})
-	c.HeldAt(M+"Create", Union(Calls(collect, canCreate, create, nextToken, heapPush), MapWrites("webdav.memLS.byToken")), "$r.mu", []string{lock}, []string{unlock})
+	c.HeldAt(M+"Create", Union(Calls(collect, canCreate, create, nextToken, heapPush), WdMapWrites("webdav.memLS.byToken")), "$r.mu", []string{lock}, []string{unlock})
 	c.HeldAt(M+"Refresh", Union(Calls(collect, heapPush, heapRemove), Loads("webdav.memLS.byToken"), Stores("webdav.LockDetails.Duration")), "$r.mu", []string{lock}, []string{unlock})
 	c.HeldAt(M+"Unlock", Union(Calls(collect, remove), Loads("webdav.memLS.byToken")), "$r.mu", []string{lock}, []string{unlock})
 	// helpers run only inside those critical sections; shared state is written only by them
@@ -56,8 +56,8 @@ func c43(c *Ctx) {
 	c.Writers(N+"refCount", create, remove)
 	c.Writers(N+"expiry", M+"Create", M+"Refresh")
 	c.Writers("webdav.memLS.gen", nextToken, "webdav.NewMemLS")
-	c.MapWriters("webdav.memLS.byToken", M+"Create", remove)
-	c.MapWriters("webdav.memLS.byName", create, remove)
+	c.WdMapWriters("webdav.memLS.byToken", M+"Create", remove)
+	c.WdMapWriters("webdav.memLS.byName", create, remove)
 
 	// ---- expiry is processed first, with the caller's clock
 	collectNow := Calls(collect).ArgIs(1, "$0")
@@ -75,21 +75,21 @@ func c43(c *Ctx) {
 
 	// ---- Create
 	cr := M + "Create"
-	c.Reject(cr, Union(Calls(create, nextToken), MapWrites("webdav.memLS.byToken"), RetOKAny()), "!canCreate($r,$1.Root,$1.ZeroDepth)")
-	c.Count(cr, RetIs(1, "webdav.ErrLocked"), 1, -1)
-	c.GuardSelf(cr, RetIs(1, "webdav.ErrLocked"), "a failed canCreate", func(in ssa.Instruction) []string {
+	c.Reject(cr, Union(Calls(create, nextToken), WdMapWrites("webdav.memLS.byToken"), WdRetOKAny()), "!canCreate($r,$1.Root,$1.ZeroDepth)")
+	c.Count(cr, WdRetIs(1, "webdav.ErrLocked"), 1, -1)
+	c.WdGuardSelf(cr, WdRetIs(1, "webdav.ErrLocked"), "a failed canCreate", func(in ssa.Instruction) []string {
 		return []string{"!canCreate($r,$1.Root,$1.ZeroDepth)"}
 	})
 	c.Before(cr, Calls("webdav.slashClean"), Calls(canCreate, create))
 	c.ArgFrom(cr, Calls(canCreate), 1, "slashClean", IsCallTo("webdav.slashClean"))
 	c.ArgFrom(cr, Calls(create), 1, "slashClean", IsCallTo("webdav.slashClean"))
 	c.StoredFrom(cr, Stores(N+"token"), "nextToken", IsCallTo(nextToken))
-	c.Count(cr, MapWrites("webdav.memLS.byToken"), 1, 1)
+	c.Count(cr, WdMapWrites("webdav.memLS.byToken"), 1, 1)
 	c43MapKey(c, cr, "webdav.memLS.byToken", "the registered node's own token", func(mu *ssa.MapUpdate) bool {
 		return Term(mu.Key) == Term(mu.Value)+".token" && Term(mu.Value) == "create($r,$1.Root)"
 	})
-	c.Before(cr, Stores(N+"token"), MapWrites("webdav.memLS.byToken"))
-	c.PassThrough(cr, Calls(create), MapWrites("webdav.memLS.byToken"))
+	c.Before(cr, Stores(N+"token"), WdMapWrites("webdav.memLS.byToken"))
+	c.PassThrough(cr, Calls(create), WdMapWrites("webdav.memLS.byToken"))
 	c.PassThrough(cr, Calls(create), Stores(N+"details"))
 	c.StoredFrom(cr, Stores(N+"expiry"), "now.Add", func(v ssa.Value) bool {
 		call, ok := v.(*ssa.Call)
@@ -103,11 +103,11 @@ func c43(c *Ctx) {
 	c.Count(nextToken, Stores("webdav.memLS.gen").StoredIs("($r.gen+1)"), 1, 1)
 	c.Count(nextToken, Stores("webdav.memLS.gen"), 1, 1)
 	c.Before(nextToken, Stores("webdav.memLS.gen"), Calls("strconv.FormatUint"))
-	c.Count(nextToken, RetIs(0, "FormatUint($r.gen,10)"), 1, -1)
+	c.Count(nextToken, WdRetIs(0, "FormatUint($r.gen,10)"), 1, -1)
 
 	// canCreate: the verdict is walkToRoot's over the closure; closure logic
 	c.Has(canCreate, Calls("webdav.walkToRoot").ArgIs(0, "$0").ArgIs(1, "closure:canCreate$1"))
-	c.RetAll(canCreate, 0, "walkToRoot", IsCallTo("webdav.walkToRoot"))
+	c.WdRetAll(canCreate, 0, "walkToRoot", IsCallTo("webdav.walkToRoot"))
 	cc := canCreate + "$1"
 	node := "^m.byName[$0]"
 	conflicts := [][]string{
@@ -118,7 +118,7 @@ func c43(c *Ctx) {
 	for _, cj := range conflicts {
 		c.Reject(cc, RetConst(0, "true"), cj...)
 	}
-	c.GuardAny_webdav(cc, RetConst(0, "false"), conflicts...)
+	c.WdGuardAny(cc, RetConst(0, "false"), conflicts...)
 	c.Count(cc, RetConst(0, "false"), 1, -1)
 
 	// walkToRoot: stop at the first false, succeed only at the root
@@ -129,7 +129,7 @@ func c43(c *Ctx) {
 			var out []ssa.Instruction
 			for _, b := range f.Blocks {
 				for _, in := range b.Instrs {
-					if call, ok := in.(*ssa.Call); ok && IsParam(f, 1)(call.Call.Value) {
+					if call, ok := in.(*ssa.Call); ok && WdIsParam(f, 1)(call.Call.Value) {
 						out = append(out, in)
 					}
 				}
@@ -142,19 +142,19 @@ func c43(c *Ctx) {
 			c.Undecided("anchor", wr+": call of the callback parameter", "not found")
 		} else {
 			c.Reject(wr, RetConst(0, "true"), "!"+Term(cb))
-			c.GuardSelf(wr, RetConst(0, "false"), "a false callback result", func(ssa.Instruction) []string { return []string{"!" + Term(cb)} })
-			c.GuardMatch(wr, RetConst(0, "true"), `name == "/"`, func(a Atom) bool {
+			c.WdGuardSelf(wr, RetConst(0, "false"), "a false callback result", func(ssa.Instruction) []string { return []string{"!" + Term(cb)} })
+			c.WdGuardMatch(wr, RetConst(0, "true"), `name == "/"`, func(a Atom) bool {
 				if a.Kind != EQ {
 					return false
 				}
-				for _, t := range AtomTerms(a) {
+				for _, t := range WdAtomTerms(a) {
 					if t == `"/"` {
 						return true
 					}
 				}
 				return false
 			})
-			c.Check(IsParam(fn, 0)(cb.Call.Args[0]) || DependsOn(cb.Call.Args[0], IsParam(fn, 0)), "derives-from", wr+": callback name derives from the name parameter", cb.Pos(), "", "callback is not given the walked name")
+			c.Check(WdIsParam(fn, 0)(cb.Call.Args[0]) || DependsOn(cb.Call.Args[0], WdIsParam(fn, 0)), "derives-from", wr+": callback name derives from the name parameter", cb.Pos(), "", "callback is not given the walked name")
 		}
 	}
 
@@ -164,14 +164,14 @@ func c43(c *Ctx) {
 	c.Count(create+"$1", RetConst(0, "true"), 1, -1)
 	c.PassThrough(create+"$1", Sel{Name: "entry", F: func(p *Prog, f *ssa.Function) []ssa.Instruction { return []ssa.Instruction{f.Blocks[0].Instrs[0]} }}, Stores(N+"refCount"))
 	c43Delta(c, create+"$1", N+"refCount", token.ADD)
-	c.Guard(create+"$1", MapWrites("webdav.memLS.byName"), node+" == nil")
+	c.Guard(create+"$1", WdMapWrites("webdav.memLS.byName"), node+" == nil")
 	c.Guard(create+"$1", Stores(N+"byExpiryIndex").StoredIs("-1"), node+" == nil")
 	c.Has(remove, Calls("webdav.walkToRoot").ArgIs(0, "$0.details.Root").ArgIs(1, "closure:remove$1"))
 	c.Count(remove+"$1", RetConst(0, "false"), 0, 0)
 	c.Count(remove+"$1", RetConst(0, "true"), 1, -1)
 	c43Delta(c, remove+"$1", N+"refCount", token.SUB)
-	c.Guard(remove+"$1", MapWrites("webdav.memLS.byName"), node+".refCount == 0")
-	c.Before(remove+"$1", Stores(N+"refCount"), MapWrites("webdav.memLS.byName"))
+	c.Guard(remove+"$1", WdMapWrites("webdav.memLS.byName"), node+".refCount == 0")
+	c.Before(remove+"$1", Stores(N+"refCount"), WdMapWrites("webdav.memLS.byName"))
 	c.Has(remove+"$1", Calls("builtin:delete").ArgIs(1, "$0"))
 	// remove: byToken entry dropped under the still-set token, token cleared, heap entry dropped
 	c.Before(remove, Calls("builtin:delete").ArgIs(0, "$r.byToken").ArgIs(1, "$0.token"), Stores(N+"token"))
@@ -185,15 +185,15 @@ func c43(c *Ctx) {
 	for _, m := range []string{"Refresh", "Unlock"} {
 		fn := M + m
 		n := "$r.byToken[$1]"
-		effects := Union(RetOKAny(), Calls(heapPush, heapRemove, remove), Stores("webdav.LockDetails.Duration"), Stores(N+"expiry"))
+		effects := Union(WdRetOKAny(), Calls(heapPush, heapRemove, remove), Stores("webdav.LockDetails.Duration"), Stores(N+"expiry"))
 		c.Reject(fn, effects, n+" == nil")
 		c.Reject(fn, effects, n+".held")
 		ei := 1
 		if m == "Unlock" {
 			ei = 0
 		}
-		c.GuardAny_webdav(fn, RetIs(ei, "webdav.ErrLocked"), []string{n + ".held"})
-		c.GuardAny_webdav(fn, RetIs(ei, "webdav.ErrNoSuchLock"), []string{n + " == nil"})
+		c.WdGuardAny(fn, WdRetIs(ei, "webdav.ErrLocked"), []string{n + ".held"})
+		c.WdGuardAny(fn, WdRetIs(ei, "webdav.ErrNoSuchLock"), []string{n + " == nil"})
 	}
 	c.Has(M+"Unlock", Calls(remove).ArgIs(1, "$r.byToken[$1]"))
 	c.CallAfterIncl(M+"Unlock", c.Edge("!$r.byToken[$1].held"), remove)
@@ -213,24 +213,24 @@ func c43(c *Ctx) {
 	cf := M + "Confirm"
 	c.Has(cf, Calls(lookup).ArgIs(1, "slashClean($1)").ArgIs(2, "$3"))
 	c.Has(cf, Calls(lookup).ArgIs(1, "slashClean($2)").ArgIs(2, "$3"))
-	c.Reject(cf, Union(RetOKAny(), Calls(hold)), `$1 != ""`, "lookup($r,slashClean($1),$3) == nil")
+	c.Reject(cf, Union(WdRetOKAny(), Calls(hold)), `$1 != ""`, "lookup($r,slashClean($1),$3) == nil")
 	// second name: the failing test is on the second lookup's result (held in a reassigned local)
 	c43ConfirmSecond(c, cf, lookup, hold)
 	c.Count(cf, Calls(hold), 2, 2)
 	c.Guard(cf, Calls(hold).ArgIs(1, "lookup($r,slashClean($1),$3)"), "lookup($r,slashClean($1),$3) != nil")
 	c.Count(cf+"$1", Calls(unhold), 2, 2)
-	c.GuardSelf(cf+"$1", Calls(unhold), "its node != nil", func(in ssa.Instruction) []string {
+	c.WdGuardSelf(cf+"$1", Calls(unhold), "its node != nil", func(in ssa.Instruction) []string {
 		return []string{Term(in.(*ssa.Call).Call.Args[1]) + " != nil"}
 	})
 
 	// lookup: only unheld nodes; exact name, or an infinite-depth ancestor via a "/"-terminated prefix
-	nonNil := RetNot(0, "nil")
-	retTerm := func(in ssa.Instruction) string { return Term(RetValue(in.(*ssa.Return), 0)) }
-	c.GuardSelf(lookup, nonNil, "!n.held && n != nil for the returned n", func(in ssa.Instruction) []string {
+	nonNil := WdRetNot(0, "nil")
+	retTerm := func(in ssa.Instruction) string { return Term(WdRetValue(in.(*ssa.Return), 0)) }
+	c.WdGuardSelf(lookup, nonNil, "!n.held && n != nil for the returned n", func(in ssa.Instruction) []string {
 		return []string{"!" + retTerm(in) + ".held", retTerm(in) + " != nil"}
 	})
 	c43LookupDepth(c, lookup, nonNil, retTerm)
-	c.RetAll(lookup, 0, "byToken[condition.Token] (or nil)", func(v ssa.Value) bool {
+	c.WdRetAll(lookup, 0, "byToken[condition.Token] (or nil)", func(v ssa.Value) bool {
 		if k, ok := v.(*ssa.Const); ok && k.Value == nil {
 			return true
 		}
@@ -281,7 +281,7 @@ func c43Loops(c *Ctx, fnName string, sel Sel) {
 	for _, in := range ins {
 		ok := false
 		for _, s := range in.Block().Succs {
-			if BlockReaches(s, in) {
+			if WdBlockReaches(s, in) {
 				ok = true
 			}
 		}
@@ -301,7 +301,7 @@ func c43MapKey(c *Ctx, fnName, field, desc string, pred func(*ssa.MapUpdate) boo
 		return
 	}
 	n := 0
-	for _, in := range MapWrites(field).F(c.P, fn) {
+	for _, in := range WdMapWrites(field).F(c.P, fn) {
 		mu, ok := in.(*ssa.MapUpdate)
 		if !ok {
 			continue
@@ -368,11 +368,11 @@ func c43ConfirmSecond(c *Ctx, cf, lookup, hold string) {
 	// (a) nil second lookup -> no successful return, no hold
 	construct := cf + `: when $2 != "" and the second lookup is nil never [hold | return <nil error>]`
 	ok := false
-	for _, ifi := range CmpBranches(fn, fromSecond, isNil) {
-		eq, _ := EqEdge(ifi)
+	for _, ifi := range WdCmpBranches(fn, fromSecond, isNil) {
+		eq, _ := WdEqEdge(ifi)
 		bad := false
-		for _, s := range append(RetOKAny().F(c.P, fn), holds...) {
-			if BlockReaches(eq, s) {
+		for _, s := range append(WdRetOKAny().F(c.P, fn), holds...) {
+			if WdBlockReaches(eq, s) {
 				bad = true
 			}
 		}
@@ -395,9 +395,9 @@ func c43ConfirmSecond(c *Ctx, cf, lookup, hold string) {
 		return
 	}
 	ok = false
-	for _, ifi := range CmpBranches(fn, fromFirst, fromSecond) {
-		eq, _ := EqEdge(ifi)
-		if !InstrDominates(ifi, hold2[0]) {
+	for _, ifi := range WdCmpBranches(fn, fromFirst, fromSecond) {
+		eq, _ := WdEqEdge(ifi)
+		if !WdInstrDominates(ifi, hold2[0]) {
 			continue
 		}
 		// on the equal edge the local is reset: the value held must then be nil-tested away.
@@ -410,13 +410,13 @@ func c43ConfirmSecond(c *Ctx, cf, lookup, hold string) {
 				}
 			}
 		}
-		if reset || !BlockReaches(eq, hold2[0]) {
+		if reset || !WdBlockReaches(eq, hold2[0]) {
 			ok = true
 		}
 	}
 	c.Check(ok, rule, construct, hold2[0].Pos(), "", "no dominating test (first node == second node) that clears the second node or skips its hold: the same lock would be held twice (panic)")
 	// the second hold is under a non-nil test of its own argument
-	c.GuardSelf(cf, Sel{Name: "second hold", F: func(*Prog, *ssa.Function) []ssa.Instruction { return hold2 }}, "its node != nil", func(in ssa.Instruction) []string {
+	c.WdGuardSelf(cf, Sel{Name: "second hold", F: func(*Prog, *ssa.Function) []ssa.Instruction { return hold2 }}, "its node != nil", func(in ssa.Instruction) []string {
 		return []string{Term(in.(*ssa.Call).Call.Args[1]) + " != nil"}
 	})
 }
@@ -469,7 +469,7 @@ func c43LookupDepth(c *Ctx, lookup string, nonNil Sel, retTerm func(ssa.Instruct
 				rootSlash, _ := c.P.ParseAtom(n + `.details.Root == "/"`)
 				okEdge := SameAtom(a, rootSlash)
 				if a.Kind == TRUE {
-					for _, t := range AtomTerms(a) {
+					for _, t := range WdAtomTerms(a) {
 						if strings.HasPrefix(t, "HasPrefix($0,("+n+`.details.Root+"/")`) {
 							okEdge = true
 						}
